@@ -362,8 +362,11 @@ Lemma inv_single_to_multi h i s l :
   Inv h -> nth_error (streams h) i = Some s -> Inv (fst (single_to_multi pkgs h i s l)).
 Proof.
   intros I Hs. unfold single_to_multi.
-  destruct (pindex (psort l) (getbox h (pbox s))) as [t|]; [|exact I].
-  frame_rows h (upd (zero_rows (length (psort l)) (nchem pkgs (pkg s))) t (getrow h (sdata s))) rs h1.
+  destruct (if any_nonzero (getrow h (sdata s))
+            then option_map (fun t => upd (zero_rows (length (psort l)) (nchem pkgs (pkg s))) t (getrow h (sdata s)))
+                            (pindex (psort l) (getbox h (pbox s)))
+            else Some (zero_rows (length (psort l)) (nchem pkgs (pkg s)))) as [vals|]; [|exact I].
+  frame_rows h vals rs h1.
   cbn [new_arr new_cache fst snd].
   eapply inv_rebind with (h := h) (a := [rs]); eauto; simpl; try congruence.
   intros _. rewrite FA, app_length; simpl; lia.
@@ -715,16 +718,18 @@ Proof.
       destruct (pindex (psort (getbox h (pbox o) :: phs s)) (getbox h (pbox o))) as [k|].
       * destruct (nth_error rs k); cbn [fst]; apply G; reflexivity.
       * cbn [fst]. apply G; reflexivity.
-  - destruct (phs o) as [|p [|q r]] eqn:PO.
-    + pose proof (inv_single_to_multi h i s [] I Hs) as I1.
-      destruct (single_to_multi pkgs h i s []) as [h1 x]. cbn [fst] in I1.
+  - assert (I0 : Inv (put_row h (sdata s) (vzero (length (getrow h (sdata s)))))) by (eapply inv_struct; eauto).
+    assert (Hs0 : nth_error (streams (put_row h (sdata s) (vzero (length (getrow h (sdata s)))))) i = Some s) by exact Hs.
+    destruct (phs o) as [|p [|q r]] eqn:PO.
+    + pose proof (inv_single_to_multi _ i s [] I0 Hs0) as I1.
+      destruct (single_to_multi pkgs (put_row h (sdata s) (vzero (length (getrow h (sdata s))))) i s []) as [h1 x]. cbn [fst] in I1.
       destruct x; try exact I1.
       destruct (nth_error (streams h1) i) as [s1|]; [|exact I1]. cbn [fst].
       destruct (copy_rows_like_struct h1 (rowrefs h1 s1) (rowrefs h1 o)) as (A & B & C).
       eapply inv_struct; [| | |exact I1]; simpl; auto.
     + cbn [fst]. eapply inv_struct; eauto.
-    + pose proof (inv_single_to_multi h i s (p :: q :: r) I Hs) as I1.
-      destruct (single_to_multi pkgs h i s (p :: q :: r)) as [h1 x]. cbn [fst] in I1.
+    + pose proof (inv_single_to_multi _ i s (p :: q :: r) I0 Hs0) as I1.
+      destruct (single_to_multi pkgs (put_row h (sdata s) (vzero (length (getrow h (sdata s))))) i s (p :: q :: r)) as [h1 x]. cbn [fst] in I1.
       destruct x; try exact I1.
       destruct (nth_error (streams h1) i) as [s1|]; [|exact I1]. cbn [fst].
       destruct (copy_rows_like_struct h1 (rowrefs h1 s1) (rowrefs h1 o)) as (A & B & C).
